@@ -103,11 +103,11 @@ SPEC = {
         "TestScenarioPlaceholders/section:calls": 0.1, "TestScenarioPlaceholders/section:scenarios": 0.1,
         "TestScenarioPlaceholders/section:variable_sources": 0.1,
         "TestDiscardOverflowDefault/source:file": 0.15, "TestDiscardOverflowDefault/source:file_noext": 0.04,
-        "TestDiscardOverflowDefault/source:stdin": 0.15, "TestDiscardOverflowDefault/source:search_dir": 0.04,
-        "TestDiscardOverflowDefault/source:search_dir_config": 0.04, "TestDiscardOverflowDefault/some_pool_without_key:stdin": 0.06,
+        "TestDiscardOverflowDefault/source:stdin": 0.11, "TestDiscardOverflowDefault/source:search_dir": 0.031,
+        "TestDiscardOverflowDefault/source:search_dir_config": 0.04, "TestDiscardOverflowDefault/some_pool_without_key:stdin": 0.047,
         "TestDiscardOverflowDefault/some_pool_without_key:file": 0.08,
         "TestMultiPlaceholders/multi:all_resolve": 0.25, "TestMultiPlaceholders/multi:unresolved": 0.3,
-        "TestMultiPlaceholders/unresolved_then_resolving": 0.25, "TestMultiPlaceholders/unresolved_then_resolving:string_field": 0.08,
+        "TestMultiPlaceholders/unresolved_then_resolving": 0.2, "TestMultiPlaceholders/unresolved_then_resolving:string_field": 0.08,
         "TestMultiPlaceholders/unresolved_then_resolving:textual_field": 0.04, "TestMultiPlaceholders/unresolved_then_resolving:list_item": 0.04,
         "TestMultiPlaceholders/unresolved_then_resolving:map_value": 0.012, "TestMultiPlaceholders/unresolved_then_resolving:unset_env": 0.12,
         "TestMultiPlaceholders/unresolved_then_resolving:missing_key": 0.03, "TestMultiPlaceholders/unresolved_then_resolving:missing_file": 0.03,
